@@ -9,7 +9,7 @@ returns the full reduction; parallel_sort leaves a sorted permutation for every 
 -/
 import TbbVerif.Proofs.C06.Det
 import TbbVerif.Proofs.C06.Sort
-import TbbVerif.Proofs.C06.Scan
+import TbbVerif.Proofs.C06.ScanGen
 
 namespace TbbVerif.C06
 
@@ -76,14 +76,14 @@ theorem reduce_join_partner (lo hi : Nat) (sched : List (List Bool × Red.Act)) 
 /-! Non-vacuity: a stolen right child splits the body, both halves run, the zombie is joined back. -/
 example :
     let s := Red.run 0 4 [([], .offer 2), ([true], .start), ([true], .run 2), ([false], .run 1), ([false], .run 1),
-                          ([true], .finish), ([false], .finish), ([], .fold)]
+                          ([true], .finish), ([false], .finish), ([], .fold), ([], .finish)]
     s.tree = .gone ∧ s.waitRef = 0 ∧ s.root.val = [0, 1, 2, 3] ∧
     s.ctx.log = [.split 1 0, .run 1 2 4, .run 0 0 1, .run 0 1 2, .join 0 1] := by decide
 
 /-! … and a right child that starts after its left sibling finished continues on the same body. -/
 example :
     let s := Red.run 0 4 [([], .offer 2), ([false], .run 2), ([false], .finish), ([true], .start), ([true], .run 2),
-                          ([true], .finish), ([], .fold)]
+                          ([true], .finish), ([], .fold), ([], .finish)]
     s.tree = .gone ∧ s.root.val = [0, 1, 2, 3] ∧ s.ctx.log = [.run 0 0 2, .run 0 2 4] := by decide
 
 /-! ## parallel_deterministic_reduce -/
@@ -147,6 +147,15 @@ theorem sort_leaf_hypothesis_satisfiable (lt : QS.Cmp) (hs : QS.SWO lt) :
 example : QS.SWO (fun x y => decide (x / 3 < y / 3)) :=
   ⟨by intro x; simp, by intro x y z h1 h2; simp at *; omega, by intro x y z h1 h2; simp at *; omega⟩
 
+/-- Whenever `parallel_sort` takes the parallel path the array is long enough for the serial probe (which reads
+elements `0 … serial_cutoff`) and for the first pretest index. -/
+theorem sort_probe_in_bounds (n : Nat) (h : QS.serialPath n = false) :
+    Generated.C06.serialCutoff < n ∧ QS.pretestBegin ≤ n := by
+  have h' : ¬ n < Generated.C06.minParallelSize := by simpa [QS.serialPath] using h
+  simp only [QS.pretestBegin, Generated.C06.minParallelSize, Generated.C06.serialCutoff,
+    Generated.C06.pretestStartOffset] at *
+  omega
+
 /-- **The pretest covers every adjacent pair.** If the serial probe over pairs `(0,1) … (8,9)` found no
 inversion, the chunks handed to `quick_sort_pretest_body` tile `[10, n)`, all chunk bodies have returned
 (under any interleaving of their iterations) and the context is not cancelled, then no adjacent pair of
@@ -208,29 +217,16 @@ example :
 
 /-! ## parallel_scan -/
 
-/- FULL STATEMENT (the growth item; checked so far by exhaustive execution of the model for all oracles on
-   ranges up to 7 leaves — `Scan.checkAll`-style tests — and by the E-REAL correspondence, not yet proved):
-
-   theorem scan_final_once_with_prefix (g : Nat) (hg : 1 ≤ g) (o : Scan.Oracle) (lo hi : Nat) (hle : lo ≤ hi) :
-       Scan.ScanOK lo hi (Scan.scan g o lo hi)
-
-   i.e. for EVERY steal oracle (which right children are stolen) and every should_execute_range oracle: no null
-   `m_left_sum` is dereferenced and the two children of a sum_node never get the same body, the user's body ends
-   with the full reduction `[lo, …, hi-1]`, and the final-scan events, sorted by position, tile `[lo,hi)` exactly
-   once, each starting from the in-order reduction of everything to its left.
-   What is missing for the general oracle: the invariant that links pass 1 to pass 2 (every kept sum_node's
-   `m_left_sum` holds exactly `[node.lo, node.mid)`, left-spine nodes start at `lo`, the bodies referenced by
-   different kept nodes are pairwise distinct and distinct from the body handed down as `m_body`) and its
-   preservation through `finish_scan::execute`'s reverse_join and `sum_node::execute`. -/
-
-/-- **Scan, no-steal oracles (`_partial`).** If no right child is ever stolen (any `should_execute_range`
-answers, any grain ≥ 1, any range): every element gets exactly one final pass, the incoming value of the
-final pass over `[a,b)` is the in-order reduction of `[lo,a)`, and the returned total is the reduction of
-the whole range. -/
-theorem scan_final_once_with_prefix_partial (g : Nat) (hg : 1 ≤ g) (o : Scan.Oracle) (ho : Scan.noSteal o)
-    (lo hi : Nat) (hle : lo ≤ hi) :
+/-- **Scan: one final pass per element, with the right prefix, for EVERY oracle.**  For every grain ≥ 1, every
+range, every steal oracle (which right children `is_stolen(ed)` reports as stolen — virtual steals are computed
+by the model as the code does, from `&m_body != m_parent->m_result.m_left_sum`) and every
+`should_execute_range` oracle (all partitioners): no null `m_left_sum` / `*m_sum_slot` is dereferenced and the two
+children of a sum_node never get the same body (`err = false`), the user's body ends with the full reduction
+`[lo, …, hi-1]`, and the final-scan events, sorted by position, tile `[lo,hi)` exactly once, each starting from
+the in-order reduction of everything to its left. -/
+theorem scan_final_once_with_prefix (g : Nat) (hg : 1 ≤ g) (o : Scan.Oracle) (lo hi : Nat) (hle : lo ≤ hi) :
     Scan.ScanOK lo hi (Scan.scan g o lo hi) :=
-  Scan.scan_no_steal g hg o ho lo hi hle
+  Scan.scan_spec g hg o lo hi hle
 
 /-- what `ScanOK` gives per element: exactly one final-scan event covers it, with the right prefix -/
 theorem scan_ok_per_element (lo hi : Nat) (c : Scan.Ctx) (h : Scan.ScanOK lo hi c) (x : Nat) (h1 : lo ≤ x) (h2 : x < hi) :
@@ -243,15 +239,14 @@ theorem scan_ok_per_element (lo hi : Nat) (c : Scan.Ctx) (h : Scan.ScanOK lo hi 
   · intro f hf
     exact (hu.2 f ((hp.mem_iff).mp hf)).1
 
-/-! Non-vacuity: a 4-leaf scan with the right half stolen needs both passes (the model run; this oracle is
-outside the proved `_partial` class and is covered by the sampled correspondence). -/
+/-! Non-vacuity: a 4-leaf scan with the right half stolen needs both passes. -/
 example :
     let c := Scan.scan 1 (Scan.oracleOf [(2, 4)] []) 0 4
     c.err = false ∧ c.val 0 = [0, 1, 2, 3] ∧
     Scan.finals c.log = [(0, 1, []), (1, 2, [0]), (2, 4, [0, 1])] ∧
     c.log.contains (.pre 2 2 3) = true := by decide
 
-example : Scan.ScanOK 0 4 (Scan.scan 1 (Scan.oracleOf [] []) 0 4) :=
-  Scan.scan_no_steal 1 (by omega) _ (by intro a b; rfl) 0 4 (by omega)
+example : Scan.ScanOK 0 4 (Scan.scan 1 (Scan.oracleOf [(2, 4), (1, 2)] [(2, 4)]) 0 4) :=
+  scan_final_once_with_prefix 1 (by omega) _ 0 4 (by omega)
 
 end TbbVerif.C06
